@@ -82,9 +82,22 @@ let obs_fdirsave img =
      | Err e -> if int_of_z e = 30 then "err-load" else "err-asm"
      | Panic _ -> "panic" | Fuel -> "hang")
 
+(* ---- the directory of an NVAR store (Model/ExtractNvar.v) ---- *)
+let obs_nvdir store =
+  let pol = z_of_int 255 in
+  match c7_nv_paths pol depth store with
+  | Err _ -> "err" | Panic _ -> "panic" | Fuel -> "hang"
+  | Ok fs ->
+    let items = List.map (fun (p, b) -> Printf.sprintf "%s:%x:%x" (string_of_bytes p) (List.length b) (fnv b)) fs in
+    let sorted = List.sort compare items in
+    (match c7_nv_dir_save pol depth store with
+     | Ok b -> Printf.sprintf "ok %x %s | %s" (List.length items) (String.concat " " sorted) (hex_of_bytes b)
+     | Err _ -> "err-asm" | Panic _ -> "panic" | Fuel -> "hang")
+
 let eval fn args : string option =
   table_miss := false; ucs_inexact := false;
   match fn, args with
+  | "nvdir", [_; store] -> Some (obs_nvdir (bytes_of_hex store))
   | "guidstr", [g] -> Some ("ok " ^ hex_of_bytes (guid_string (bytes_of_hex g)))
   | "guidparse", [t] ->
     Some (match guid_parse (bytes_of_hex t) with Some g -> "ok " ^ hex_of_bytes g | None -> "err")
